@@ -157,7 +157,7 @@ class RestoreHolder(Contract):
     name = f"{DUMP}._restore_holder"
     prop = ("C19",)
     top_level = True
-    cases = ("dated-float", "eternal-float")
+    cases = ("dated-float", "eternal-float", "dated-float-one-on-disk")
     descr = ("after _dump_holder, _restore_holder gives the variable's holder, for every period the original held, an array equal "
              "to the original one, and nothing else")
     inline = (f"{DUMP}._dump_holder", HOLDER + ".create_disk_storage", HOLDER + ".get_known_periods", HOLDER + ".get_array",
@@ -168,7 +168,8 @@ class RestoreHolder(Contract):
     def setup(self, I, ctx, case):
         R = I.resolve_qualified
         eternal = case.startswith("eternal")
-        w = S.HWorld(I, ctx, disk=False, eternal=eternal)
+        spilled = case.endswith("one-on-disk")
+        w = S.HWorld(I, ctx, disk=spilled, eternal=eternal)
         if eternal:
             ps = [S.eternity(I)]
         else:
@@ -177,7 +178,17 @@ class RestoreHolder(Contract):
                 ctx.assume(zi(p.items[2]) == 1)
             ctx.assume(z3.Not(B._zb(B.eq_formula(I, ctx, ps[0], ps[1]))))
         vals = [S.plain_array(ctx, "stored%d" % i) for i in range(len(ps))]
-        w.mem.fields["_arrays"] = B.map_of_pairs(I, ctx, list(zip(ps, vals)), "memory")
+        if spilled:
+            # the second period's array was moved to the holder's own disk storage (memory threshold reached)
+            # ... in a file of the holder's own storage directory, which is not the directory dumped into
+            own_dir, dump_dir = S.dir_term(w.disk.fields["storage_dir"]), S.dir_term("/dump/v")
+            ctx.assume(own_dir != dump_dir)
+            path = Opaque(S.PJOIN(own_dir, ctx.fresh_const("spilled_name", S.NAME)), "path:spilled", {})
+            w.disk.fields["_files"] = B.map_of_pairs(I, ctx, [(ps[1], path)], "files")
+            vals[1] = S.unwrap(I.call(ctx, I.ext["numpy"]["load"], [path], {}))
+            w.mem.fields["_arrays"] = B.map_of_pairs(I, ctx, [(ps[0], vals[0])], "memory")
+        else:
+            w.mem.fields["_arrays"] = B.map_of_pairs(I, ctx, list(zip(ps, vals)), "memory")
         w.var.fields["possible_values"] = None
         # dump the original holder with the real _dump_holder
         dump = I.resolve_qualified(f"{DUMP}._dump_holder")
